@@ -18,9 +18,11 @@ Lemma handle_exception_spec : handle_exception_waits_for_named_job = true. Proof
 Lemma stored_reset_spec : stored_exceptions_reset_when_workers_start = true. Proof. vm_compute. reflexivity. Qed.
 Lemma finit_stale_eq stale scripts : finit_stale stale scripts = finit scripts.
 Proof. unfold finit_stale, finit. rewrite stored_reset_spec. reflexivity. Qed.
+Lemma reaches_spec : user_exception_reaches_the_handler = true. Proof. vm_compute. reflexivity. Qed.
+Lemma snapshot_spec : timeout_scan_uses_a_snapshot = true. Proof. vm_compute. reflexivity. Qed.
 Lemma drains_spec : terminate_drains_queues_completely = true. Proof. vm_compute. reflexivity. Qed.
 Lemma waits_spec : dispatch_waits_stop_on_exception = true. Proof. vm_compute. reflexivity. Qed.
-Ltac ffacts := rewrite ?drains_spec, ?waits_spec, ?raise_order_spec, ?run_safely_first_spec, ?broadcast_init_spec, ?death_order_spec, ?timeout_order_spec,
+Ltac ffacts := rewrite ?reaches_spec, ?snapshot_spec, ?drains_spec, ?waits_spec, ?raise_order_spec, ?run_safely_first_spec, ?broadcast_init_spec, ?death_order_spec, ?timeout_order_spec,
   ?handle_exception_spec in *.
 
 Lemma jid_eqb_refl j : jid_eqb j j = true. Proof. destruct j; reflexivity. Qed.
